@@ -244,6 +244,7 @@ type vHarness struct {
 	dir     string
 	sinkTCP net.Listener
 	sinkUDP net.PacketConn
+	srvMetrics *serverMetrics // the server-level collector (keys / ports gauges) of the current scenario
 	serverCfg string   // configuration file name given to RunOutlineServer
 	nserver   int
 	lastNat vNatProbe // the latest UDP probe (client address, instant it was sent)
@@ -283,10 +284,27 @@ func vFreshPort() int {
 	return vNextPort
 }
 
+// vJumpPorts moves the port counter to another region
+func vJumpPorts() {
+	vPortMu.Lock()
+	vNextPort = 33000 + (vNextPort-33000+3571)%27000
+	vPortMu.Unlock()
+}
+
+// vReuseAddr: a local port that another process left in TIME_WAIT may be bound (this process still never uses a port twice)
+func vReuseAddr(network, address string, c syscall.RawConn) error {
+	var serr error
+	c.Control(func(fd uintptr) { serr = syscall.SetsockoptInt(int(fd), syscall.SOL_SOCKET, syscall.SO_REUSEADDR, 1) })
+	return serr
+}
+
 func vDial(addr string) (net.Conn, error) {
 	var err error
 	for i := 0; i < 200; i++ {
-		d := net.Dialer{Timeout: 4 * time.Second, LocalAddr: &net.TCPAddr{IP: net.ParseIP("127.0.0.1"), Port: vFreshPort()}}
+		if i%25 == 24 {
+			vJumpPorts() // a whole run of ports is taken (another process works in this region): move on
+		}
+		d := net.Dialer{Timeout: 4 * time.Second, LocalAddr: &net.TCPAddr{IP: net.ParseIP("127.0.0.1"), Port: vFreshPort()}, Control: vReuseAddr}
 		var c net.Conn
 		c, err = d.Dial("tcp", addr)
 		if err == nil || errors.Is(err, syscall.ECONNREFUSED) {
@@ -581,7 +599,8 @@ func (h *vHarness) newServer(m *vMetrics, replay int) *OutlineServer {
 	// every RunOutlineServer subscribes its server to SIGHUP for the life of the process: only the server of the current
 	// scenario may react to the signals the harness sends
 	signal.Reset(syscall.SIGHUP)
-	server, err := RunOutlineServer(f, vNatTimeout, newPrometheusServerMetrics(), m, replay)
+	h.srvMetrics = newPrometheusServerMetrics()
+	server, err := RunOutlineServer(f, vNatTimeout, h.srvMetrics, m, replay)
 	h.emit(map[string]any{"ev": "Load", "cfg": vCfgJSON(empty), "frn": vFrn(nil), "ok": err == nil, "err": fmt.Sprint(err)})
 	if err != nil {
 		return nil
